@@ -266,8 +266,9 @@ impl Report {
         let samples = if self.acc.samples.is_empty() { vec![json!("none")] } else { self.acc.samples.clone() };
         cov.insert("samples".into(), json!(samples));
         let prev = cov.get("exhaustive").and_then(|v| v.as_bool()).unwrap_or(true);
-        cov.insert("exhaustive".into(), json!(prev && exhaustive));
-        if !exhaustive {
+        let exhaustive = prev && exhaustive;
+        cov.insert("exhaustive".into(), json!(exhaustive));
+        if Deadline::was_hit() {
             cov.insert(
                 "cap_hit".into(),
                 json!("internal wall cap reached; see counters.skipped_by_deadline for what was not run"),
